@@ -95,6 +95,18 @@ def skeleton_rules(ctx, F):
     ctx.floor(R, "descend store `self.kids = kids(doc, kid_id)`", len(desc), 1)
     ctx.floor(R, "stack push", len(pushes), 1)
     ctx.floor(R, "stack pop", len(pops), 1)
+    # the current list is only ever replaced by its own rest (split_first), by the kids of the node just entered, or by a
+    # popped entry: installing any other list (say, the one that was just pushed) walks those siblings twice
+    for x in adv:
+        if x[1] == "T":
+            continue
+        rv_ = x[2]["rv"]
+        src = nx.sname(rv_["ops"][0], 8) if rv_.get("ops") else (nx.sname(rv_["o"], 8) if "o" in rv_ else "?")
+        # the second component of `split_first()` of the current list, taken directly or through `and_then(|k| k.split_first())`
+        splits = any(lib.calls_named(cb_, r"slice::<impl \[T\]>::split_first$") for cb_ in F.with_closures(nx))
+        is_rest = splits and re.search(r"split_first\([^()]*self\.kids.*\)@Some\.0\.1|and_then\(\*?self\.kids,closure\([^()]*\)\)@Some\.0\.1", src) is not None
+        ctx.ob(R, "advance-is-the-rest|next", is_rest, "self.kids = Some(rest of the current list): %s" % src[:80], nx.where(x[2]["ln"]),
+               what="PageTreeIter::next installs `%s` as the current list, which is not the rest of the list it is walking: kids that are also pending on the stack are enumerated twice" % src[:120])
     if adv and desc and pushes and pops:
         a = adv[0]
         for p in pushes:
